@@ -214,6 +214,10 @@ func c14Inputs(c *ctx, emit func(label string, bs []byte)) {
 		{'C', 0x04, 'M', 'a', 'p', 's', 0x91, 0x02, 's', 'i', 0x60, 'H', 0x90, 0x01, 'x', 'Z'},                 // int key into map[string]int32
 		{'C', 0x04, 'M', 'a', 'p', 's', 0x91, 0x02, 's', 'i', 0x60, 'H', 0x57, 'Z', 0x90, 'Z'},                 // a list as a map key (unhashable)
 		{'H', 0x57, 'Z', 0x90, 'Z'}, {'H', 'H', 'Z', 0x90, 'Z'}, // unhashable keys in an untyped map
+		// the input ends exactly after a complete non-final chunk (at the position of the next chunk's tag)
+		{'R', 0, 1, 'a'}, {'R', 0, 0}, {'R', 0, 1, 'a', 'R', 0, 1, 'b'}, {'R', 0, 2, 0xe4, 0xb8, 0x80, 'x'}, {'A', 0, 1, 7}, {'A', 0, 0}, {'A', 0, 1, 7, 'A', 0, 2, 8, 9},
+		{0x57, 'R', 0, 1, 'a'}, {0x79, 'A', 0, 1, 7}, {'H', 'R', 0, 1, 'k'},
+		{'C', 0x05, 'I', 'n', 'n', 'e', 'r', 0x92, 0x01, 'a', 0x01, 's', 0x60, 0x91, 'R', 0, 1, 'x'}, // in a string field
 	}
 	for d := 10; d <= 65000; d *= 5 { // deep nesting: depth bounded by the input length
 		for _, t := range []byte{0x57, 'H', 0x79, 0x58} {
